@@ -1,0 +1,14 @@
+//go:build verif
+
+package log
+
+// VerifYield, when set (verification builds only), is called at every debug log call.
+// The code base logs before almost every state change, which makes these calls the
+// yield points at which the verification harness may inject an asynchronous event.
+var VerifYield func(prefix, message string)
+
+func verifYield(d *Log, message string) {
+	if f := VerifYield; f != nil {
+		f(d.Prefix(), message)
+	}
+}
